@@ -30,11 +30,12 @@ RULE = (
 )
 ASSUMPTIONS = [
     "mutants whose lots no longer cover the disposals are excluded (C02 decides those, and the lot error is raised first)",
-    "balances in (-1e-10, 0) and same-instant transfer chains are unspecified: either outcome is accepted",
+    "balances in (-1e-10, 0) and chains of transfers inside one instant are unspecified: either outcome is accepted",
+    "inside one instant acquisitions are credited first, then transfers, then out-transactions are debited (as the pinned tree does): a disposal funded by a transfer of the same instant must be accepted",
 ]
 SETTINGS: Dict[str, Dict[str, Any]] = {
-    "quick": {"cases": 1600, "cli_cases": 48, "budget_s": 45, "minimums": {"must_reject_runs": 800, "must_accept_runs": 1500, "with_n_negative_reported": 300, "nontrivial": 800, "cli_runs": 8, "runs_with_from_date": 1500}},
-    "thorough": {"cases": 60000, "cli_cases": 300, "budget_s": 300, "minimums": {"must_reject_runs": 30000, "must_accept_runs": 60000, "with_n_negative_reported": 10000, "nontrivial": 30000, "cli_runs": 150, "runs_with_from_date": 50000}},
+    "quick": {"cases": 1600, "cli_cases": 48, "budget_s": 45, "minimums": {"must_reject_runs": 800, "must_accept_runs": 1500, "with_n_negative_reported": 300, "nontrivial": 800, "cli_runs": 8, "runs_with_from_date": 1500, "same_instant_transfer_then_sale_cases": 100}},
+    "thorough": {"cases": 60000, "cli_cases": 300, "budget_s": 300, "minimums": {"must_reject_runs": 30000, "must_accept_runs": 60000, "with_n_negative_reported": 10000, "nontrivial": 30000, "cli_runs": 150, "runs_with_from_date": 50000, "same_instant_transfer_then_sale_cases": 3000}},
 }
 PROFILES = [
     Profile(n_exchanges=2, n_holders=1, p_intra=0.25, tie_prob=0.3, max_events=16),
@@ -182,6 +183,15 @@ def run_shard(ctx: Any) -> None:
                 _observe(ctx, ip, m, sched, False, None, "mutant-from-date", from_s=rng.choice((last, last + timedelta(days=1), last - timedelta(days=200))).isoformat())
         else:
             ctx.count("generated_invalid")
+        if index % 6 == 0:
+            # a disposal at exactly the instant of the transfer that funds its account (day-granular exports): accepted
+            from rpv import families
+
+            hist = families.same_instant_transfer_then_sale(rng)
+            if is_valid(Model(hist)):
+                for allow in (False, True):
+                    _observe(ctx, ip, hist, {1970: rng.choice(METHODS)}, allow, None, "same-instant-transfer-then-sale")
+                ctx.count("same_instant_transfer_then_sale_cases")
         index += ctx.nshards
         done += 1
     ctx.count("inputs", done)
